@@ -512,6 +512,21 @@ def order_query(rnd, rows, pkcol="a"):
     if rnd.random() < 0.7:
         q["lim"] = rnd.choice([0, 1, 2, 5, 9, -1])
         q["off"] = rnd.choice([0, 0, 1, 2, 5, 13])
+    if rnd.random() < 0.25:
+        # an ordered derived table under an outer ORDER BY on the same keys in another sequence / direction, or on
+        # more keys: the outer ORDER BY must not be taken for redundant
+        cols = [("a", G.INT), ("b", G.INT), ("c", G.STR)]
+        i, j = rnd.sample(range(3), 2)
+        di, dj = rnd.choice(["asc", "desc"]), rnd.choice(["asc", "desc"])
+        inner = dict(sel=[(("col", "y", c, ty), f"d{k + 1}") for k, (c, ty) in enumerate(cols)], frm=("t", "t1", "y"), where=None,
+                     grp=[], hav=None, agg=False, dist=False, ord=[(i, di), (j, dj)], lim=-1, off=0)
+        dcols = [(f"d{k + 1}", ty) for k, (_, ty) in enumerate(cols)]
+        outer_ord = rnd.choice([[(j, dj), (i, di)], [(i, di), (j, "desc" if dj == "asc" else "asc")], [(j, dj)],
+                                [(i, di), (j, dj), (3 - i - j, "asc")]])
+        q = dict(sel=[(("col", "x1", n, ty), f"c{k + 1}") for k, (n, ty) in enumerate(dcols)],
+                 frm=("sub", inner, "x1", dcols), where=None, grp=[], hav=None, agg=False, dist=False,
+                 ord=outer_ord, lim=rnd.choice([-1, -1, 3, 7]), off=rnd.choice([0, 0, 2]))
+        return q
     if pkcol != "a" and rnd.random() < 0.5:
         # the key is not the first column: scans that prune the columns in front of it and rely on key order
         cols = [("col", "x1", pkcol, G.INT)] + ([("col", "x1", "c", G.STR)] if rnd.random() < 0.6 else [])
